@@ -30,7 +30,6 @@ T0 = 10 ** 18            # mtime (ns) given to every file before a step: a rewri
 KINDS = ("bin", "cas", "dsk")
 KF_EMPTY = "tape_empty_file"
 KF_BIGTAPE = "tape_sniffed_as_disk"
-KF_GARBAGE = "bytes_sniffed_as_tape"
 POOL = 8
 
 
@@ -434,11 +433,8 @@ def judge_step(pid, drv, rep, inv, ob, newfiles, payload, prog=None, hist=None, 
             continue
         mnew = model["fs"].get(tgt, old) if model else None
         if written and not allowed:
-            same_as_model = model is not None and mnew == new
             if kind == "dsk" and append and okind == "cas" and len(old) >= SIZE and KF_BIGTAPE in kf:
                 rep.known_finding(KF_BIGTAPE, "a %d-byte cassette image is sniffed as a DISK holding no files: --to_dsk --append overwrote it (virtual_file.py get_coco_files / disk.py list_files size test)" % len(old))
-            elif kind == "cas" and append and okind != "cas" and same_as_model and KF_GARBAGE in kf:
-                rep.known_finding(KF_GARBAGE, "content that is not a cassette image (%d bytes, spec parser rejects it) is listed as a cassette of 0 files by the tape reader: --to_cas --append overwrote it" % len(old))
             else:
                 rep.violation("existing target modified although %s (target held %s content, writing %s)" % (
                     "--append was not given" if not append else "its content is not a %s image" % kind, okind, kind),
@@ -780,7 +776,10 @@ def c09_check_history(pid, drv, rep, kind, ops, hist):
             (kind == "cas" or [x[1] for x in s["listing"]] == [x[1] for x in exp])
         if good and relisted:
             continue
-        if empty_cls and KF_EMPTY in kf and mr.startswith("OK") and unhx(mr[3:]) == snaps[-1].get("bytes"):
+        impl_final = snaps[-1].get("bytes") if ("bytes" in snaps[-1] and "error" not in snaps[-1]) else None
+        agree = (mr.startswith("OK") and impl_final is not None and unhx(mr[3:]) == impl_final) or \
+                (mr.startswith("DIAG") and impl_final is None)
+        if empty_cls and KF_EMPTY in kf and agree:
             rep.known_finding(KF_EMPTY, "a tape file with empty data, and every later file, is missing after save/re-open (history %s...)" % key["ops"][:60])
             return True
         if big and KF_BIGTAPE in kf:
@@ -1125,6 +1124,25 @@ def c11_check(pid, drv, rep, case, obs, hist):
             ok = False
     if not ok:
         return False
+    # correspondence with MCli.assembler_main: the model assembles the same lines, turns its origin Value into the header
+    # word (origin_word) and saves; exit status, messages and every written byte must agree
+    lines = ",".join(l.encode("latin-1").hex() or "_" for l in src.splitlines(keepends=True)) or "-"
+    sw = lambda k: inv["targets"][k] if k in inv["kinds"] else "-"
+    r = drv.ask("asmmain %s %s %s %s %s %d - %s" % (fs_string(ob["before"]), sw("bin"), sw("cas"), sw("dsk"),
+                                                  hx((inv.get("name") or "").encode("latin-1")), 1 if inv.get("append") else 0, lines))
+    bump(rep, "main_traces")
+    if r.startswith("ERROR") or "UNMOD" in r.split(" ")[1] or "FUEL" in r.split(" ")[1]:
+        bump(rep, "unmodelled")
+    else:
+        mrc, mev, mfs = r.split(" ")
+        mfs = parse_fs(mfs)
+        same = int(mrc) == ob["rc"] and all(mfs.get(inv["targets"][k]) == ob["after"].get(inv["targets"][k], (None,))[0] for k in inv["kinds"]) \
+            and model_event_classes("asm", [] if mev == "-" else mev.split("|")) == out_events("asm", ob["out"])
+        if not same:
+            bump(rep, "disagreements_checked")
+            rep.violation("correspondence: MCli.assembler_main (assemble + origin_word + asm_save) differs from assembler.py: model rc=%s %s" % (mrc, mev[:80]),
+                          dict(payload, relation="MCli.assembler_main = assembler.py main()"), found_input=False)
+            return False
     # correspondence with the model of the save part (and the C10 clauses on fresh targets)
     nf = {k: [(eff, "bin", 2, 0, origin, origin, image)] for k in inv["kinds"]}
     if not eff:
